@@ -161,6 +161,9 @@ static size_t derTDec(u32* tag, const octet der[], size_t count)
 static size_t derLEnc(octet der[], size_t len)
 {
 	size_t l_count = 1;
+	// длина, которую отвергает derLDec()?
+	if (len == SIZE_MAX)
+		return SIZE_MAX;
 	// определить длину кода
 	{
 		size_t l = len;
